@@ -1040,8 +1040,10 @@ def write_crate(pl, outdir, cases_per_bin=120, rustflags=True):
                 script.append(f"case {c['id']} {g['id']} {g['gprop'] or '-'} {p.model_tmin()} {p.model_tmax()}")
                 script += p.script_lines()
                 for v in c["variants"]:
-                    cp = " ".join(str(ord(ch)) for ch in name_of(v))
-                    script.append(f"name {v['ident']} {cp}".rstrip())
+                    if v["rename"] is not None:
+                        script.append(("name %s R %s" % (v["ident"], " ".join(str(ord(ch)) for ch in v["rename"]))).rstrip())
+                    else:
+                        script.append(f"name {v['ident']} -")
                 script.append(f"use {bid}")
                 bm.append({"id": c["id"], "grp": g["id"], "gprop": g["gprop"], "kind": g["kind"], "label": c["label"],
                            "repr": c["repr"], "n": len(c["variants"]), "start": start, "end": start + len(lines),
